@@ -25,12 +25,31 @@ PROVED in §8 (these were statistical validations only before):
     `LaplaceBoundedDomain` (`boundedDomain_law`) and the discrete Gaussian pmf of the Canonne–Kamath–Steinke loop given
     the one-pass law `cksPassProb` (`discrete_gauss_loop_law`).
 
+PROVED in §9–§11 over the i.i.d. UNIFORM stream `streamμ = Measure.infinitePi (fun _ => unif01)` (C01's stream machinery:
+a sampler reads a finite prefix of the stream and leaves the rest; `SmpS.HasLaw` = its result is independent of whatever
+reads the rest, proved from the product measure):
+  * §9 GaussianDiscrete: the geometric proposal (`cks_geometric_law`), one pass = `cksPassProb` (`cks_pass_law`: geometric
+    loop of `bernoulli_neg_exp` calls, fair sign, `bernoulli_neg_exp(γ)` acceptance with its recursion for γ > 1), the
+    renewal step (`cks_renewal`), hence the loop with unbounded inner loops returns `y` with the discrete Gaussian
+    probability (`cks_unbounded_loop_law`); the executable model with its fuel is a restriction of that loop
+    (`cks_model_refines`) and therefore has the discrete Gaussian law up to its fuel-exhaustion event
+    (`cks_loop_law_full` — formerly a `def … : Prop`); the discrete Gaussian weights sum to 1 (`discrete_gauss_pmf`);
+  * §10 rejection samplers: the batch layout is an injective reindexing (`batch_layout_injective`), the candidate stream is
+    i.i.d. standard Laplace (`batch_layout_iid`), the model's `candidates` are a prefix of it (`batch_layout_candidates`),
+    hence `LaplaceBoundedDomain` / `LaplaceBoundedNoise` on the uniform stream, in the code's consumption order, have the
+    conditioned Laplace law (`boundedDomain_stream_law`, `boundedNoise_stream_law`);
+  * §11 Snapping: `(−1)^bit·log U` is standard Laplace (`snapping_sign_log_law`), the rounding step is round-half-up to
+    the grid with cells `[(k−½)Λ, (k+½)Λ)` (`snapping_round_half_up`), the released value has the law of `snapPost` of a
+    Laplace variable (`snapping_release_law`), the grid point `Λk` has the Laplace probability of its cell
+    (`snapping_grid_pmf`).
+
 NOT proved here (validated statistically by the harness, listed as `UNPROVED` in the evidence): that a normalised
-Gaussian vector is uniform on the sphere; that the passes of the model's `cksLoop` over an i.i.d. UNIFORM stream are
-i.i.d. with the one-pass law (kept as `def cks_loop_law_full : Prop` at the end of §8: composition of the branch laws
-inside a pass + a renewal argument over a variable number of consumed uniforms); that the batch layout of `rejLoop`
-(a fixed permutation of coordinates) turns an i.i.d. uniform stream into an i.i.d. candidate stream; Snapping's released
-law; and Bingham's rejection sampler (open finding, §7).
+Gaussian vector is uniform on the sphere; an explicit bound on the probability of the model's fuel-exhaustion event
+`abort` in `cks_loop_law_full` for the model's FIXED inner fuels 64 / 4096 / 4096 (it is not small for large scales: the
+cap 4096 on the geometric count is reached with probability about `e^{−4096·τ}`, `τ ≈ 1/scale`; the unbounded loop has no such
+event, `cks_unbounded_loop_law`); that the law of the model's `snapUniform` (a dyadic double) is the round-down of a
+continuous uniform — §11 idealises it as `unif01` — and the floating-point evaluation of `log`; and Bingham's rejection
+sampler (open finding, §7).
 -/
 import DPL.Proofs.SamplersLaws
 import DPL.Proofs.SamplersBern
@@ -39,6 +58,8 @@ import DPL.Proofs.SamplersLap4Law
 import DPL.Proofs.SamplersRejection
 import DPL.Proofs.SamplersGammaSum
 import DPL.Proofs.SamplersStreamCKSFinal
+import DPL.Proofs.SamplersStreamBatchLaw
+import DPL.Proofs.SamplersSnapRound
 
 namespace DPL.C03
 open DPL DPL.Smp MeasureTheory Set
@@ -740,5 +761,147 @@ theorem cks_loop_law_full (scale : ℝ) (hscale : 0 < scale) (y : ℤ) :
     μ ret ≤ dG ∧ dG ≤ μ ret + μ abort := by
   obtain ⟨ht, _, hs⟩ := cks_params_pos scale hscale
   exact SmpS.cks_model_sandwich (cksTau scale) (cksSigma2 scale) ht hs y
+
+/-! ### 10. the rejection samplers over the i.i.d. UNIFORM stream (batch layout)
+
+`SmpS.idxS s m r` is the position in the uniform stream of the `r`-th uniform (`r = 0..3`) of candidate number `m` when
+the first batch has size `s` (batches of `4·s` uniforms, `s ↦ min(100000, 2s)`; sample `i` of a batch uses uniforms
+`i, s+i, 2s+i, 3s+i` of the batch); `SmpS.candStream s ω m = lap4` of those four uniforms. -/
+
+/-- the layout uses no uniform twice: `(candidate, r) ↦ position` is injective -/
+theorem batch_layout_injective (s : ℕ) (hs : 0 < s) (m m' r r' : ℕ) (hr : r < 4) (hr' : r' < 4)
+    (h : SmpS.idxS s m r = SmpS.idxS s m' r') : m = m' ∧ r = r' :=
+  SmpS.idxS_inj m s hs m' r r' hr hr' h
+
+/-- the model's loop looks at a prefix of the candidate stream: its `candidates` on the first `N` uniforms are the first
+`cnt fuel s N` entries of `candStream`, and with enough fuel and uniforms that prefix is as long as one likes -/
+theorem batch_layout_candidates (cand : ℝ → ℝ) (fuel s : ℕ) (hs : 0 < s) (ω : ℕ → ℝ) (N : ℕ) :
+    candidates cand fuel s (Discrete.pre ω N)
+        = (List.range (SmpS.cnt fuel s N)).map (fun m => cand (SmpS.candStream s ω m)) ∧
+    ∀ n, ∃ fuel' N', n < SmpS.cnt fuel' s N' :=
+  ⟨SmpS.candidates_pre cand fuel s hs ω N, fun n => SmpS.cnt_unbounded n s hs⟩
+
+/-- non-vacuity: the second batch (size 2) starts at uniform 4 and interleaves: candidate 1 uses uniforms 4, 6, 8, 10 -/
+example : SmpS.idxS 1 1 0 = 4 ∧ SmpS.idxS 1 1 1 = 6 ∧ SmpS.idxS 1 1 2 = 8 ∧ SmpS.idxS 1 1 3 = 10 := by
+  have h : ∀ r, SmpS.idxS 1 1 r = SmpS.idxS (SmpS.nextS 1) 0 r + 4 := fun r => SmpS.idxS_ge one_pos le_rfl r
+  have h2 : ∀ r, SmpS.idxS (SmpS.nextS 1) 0 r = 0 + r * SmpS.nextS 1 := fun r => SmpS.idxS_lt (by decide) r
+  simp only [h, h2]; decide
+
+/-- **the batch layout turns the i.i.d. uniform stream into an i.i.d. stream of standard-Laplace candidates**: the
+push-forward of the stream measure under `candStream s` is the product of Laplace(0,1) laws.  (A reindexing along an
+injective map preserves an i.i.d. product measure; the blocks of four go through Holohan–Braghin `laplace4_law`.) -/
+theorem batch_layout_iid (s : ℕ) (hs : 0 < s) :
+    Discrete.streamμ.map (SmpS.candStream s) = Measure.infinitePi (fun _ : ℕ => Cont.lapMeasure 1 0) :=
+  SmpS.candStream_law s hs
+
+/-- **`LaplaceBoundedDomain.randomise` over the uniform stream**: the probability that the model (any fuel, any long enough
+prefix of the i.i.d. uniform stream, in the code's consumption order) returns a value in `S` is the Laplace law
+`lapMeasure scale clamp(x)` conditioned on `[lo, hi]` — `boundedDomain_law` for the code's actual layout -/
+theorem boundedDomain_stream_law (scale lo hi x : ℝ) (hs : 0 < scale) (hne : lo ≠ hi) (S : Set ℝ)
+    (hS : MeasurableSet S) :
+    Discrete.streamμ {ω : ℕ → ℝ | ∃ N fuel v n,
+        boundedDomain scale lo hi x (Discrete.pre ω N) fuel = some (v, n) ∧ v ∈ S}
+      = Cont.lapMeasure scale (clampPy lo hi x) (Icc lo hi ∩ S)
+          / Cont.lapMeasure scale (clampPy lo hi x) (Icc lo hi) := by
+  have hfe : Smp.feq lo hi = false := by
+    simp only [Smp.feq, Bool.and_eq_false_iff, decide_eq_false_iff_not, not_le]
+    rcases lt_or_gt_of_ne hne with h1 | h1
+    · right; exact h1
+    · left; exact h1
+  have hm : Measurable (fun l : ℝ => clampPy lo hi x + scale * l) :=
+    measurable_const.add (measurable_const.mul measurable_id)
+  have hev : {ω : ℕ → ℝ | ∃ N fuel v n, boundedDomain scale lo hi x (Discrete.pre ω N) fuel = some (v, n) ∧ v ∈ S}
+      = {ω : ℕ → ℝ | ∃ N fuel v n, rejLoop (fun l => clampPy lo hi x + scale * l) (inRange lo hi) fuel 1
+          (Discrete.pre ω N) 0 = some (v, n) ∧ v ∈ S} := by
+    ext ω
+    simp only [boundedDomain, hfe, Bool.false_eq_true, if_false]
+  have haff := lapMeasure_affine' scale (clampPy lo hi x) hs.ne'
+  rw [abs_of_pos hs] at haff
+  rw [hev, SmpS.rejLoop_stream_law _ hm lo hi S hS, ← haff, Measure.map_apply hm (measurableSet_Icc.inter hS),
+    Measure.map_apply hm measurableSet_Icc, Set.preimage_inter]
+
+/-- **`LaplaceBoundedNoise.randomise` over the uniform stream**: the noise that is added to the value (`boundedNoise_additive`)
+has the Laplace law with scale `sens/ε` conditioned on `[−noise_bound, noise_bound]` -/
+theorem boundedNoise_stream_law (eps delta sens : ℝ) (hs : 0 < sens / eps) (S : Set ℝ) (hS : MeasurableSet S) :
+    Discrete.streamμ {ω : ℕ → ℝ | ∃ N fuel v n,
+        boundedNoiseNoise eps delta sens (Discrete.pre ω N) fuel = some (v, n) ∧ v ∈ S}
+      = Cont.lapMeasure (sens / eps) 0 (Icc (-noiseBound eps delta sens) (noiseBound eps delta sens) ∩ S)
+          / Cont.lapMeasure (sens / eps) 0 (Icc (-noiseBound eps delta sens) (noiseBound eps delta sens)) := by
+  have hm : Measurable (fun l : ℝ => sens / eps * l) := measurable_const.mul measurable_id
+  have haff := lapMeasure_affine' (sens / eps) 0 hs.ne'
+  rw [abs_of_pos hs] at haff
+  have hfun : (fun l : ℝ => 0 + sens / eps * l) = (fun l : ℝ => sens / eps * l) := by funext l; ring
+  rw [hfun] at haff
+  have h := SmpS.rejLoop_stream_law _ hm (-noiseBound eps delta sens) (noiseBound eps delta sens) S hS
+  rw [← haff, Measure.map_apply hm (measurableSet_Icc.inter hS), Measure.map_apply hm measurableSet_Icc,
+    Set.preimage_inter]
+  exact h
+
+/-- non-vacuity of `boundedNoise_stream_law`'s hypothesis -/
+example : (0 : ℝ) < 1 / 1 := by norm_num
+
+/-! ### 11. Snapping: the law of the released grid point
+
+MODELLED: the sign bit `getrandbits(1)` is a fair bit (`SmpS.bitLaw = ½δ₀ + ½δ₁`); the output of `_uniform_sampler` is a
+CONTINUOUS uniform on [0,1) (`unif01`) — the model's `snapUniform` returns the dyadic double `mantissa·2^exponent`, and
+that its law is the round-down of a continuous uniform is not proved here; `log` is the real logarithm (no crlibm
+rounding), arithmetic is exact, `_get_nearest_power_of_2` is `2^⌈log₂ x⌉`.  The rounding-to-grid step, the two clamps and
+the rescaling are the model's own `snapRound` / `snapPost` (`snapping_after_noise` says that the model's `snapping` is
+exactly `snapPost(clamped + scale·snapLaplace bit u)` for the `u` that `snapUniform` returns). -/
+
+/-- **`Snapping._laplace_sampler(bit, U) = (−1)^bit·log U` is standard Laplace** for a fair bit and `U` uniform on [0,1)
+(CDFs: `P[log U ≤ t] = min(1, e^t)`, `P[−log U ≤ t] = max(0, 1 − e^{−t})`) -/
+theorem snapping_sign_log_law :
+    (SmpS.bitLaw.prod unif01).map (fun p : ℕ × ℝ => snapLaplace p.1 p.2) = Cont.lapMeasure 1 0 :=
+  SmpS.snapLaplace_law
+
+/-- the model's `_round_to_nearest_power_of_2(v, Λ)` is round-half-up to the grid `Λ·ℤ`, and it returns the grid point
+`Λ·k` exactly for `v ∈ [(k−½)Λ, (k+½)Λ)` -/
+theorem snapping_round_half_up (lam : ℝ) (hl : 0 < lam) :
+    (∀ v : ℝ, snapRound v lam = lam * ((⌊v / lam + 1 / 2⌋ : ℤ) : ℝ)) ∧
+    ∀ k : ℤ, (fun v => snapRound v lam) ⁻¹' {lam * (k : ℝ)}
+      = Ico (((k : ℝ) - 1 / 2) * lam) (((k : ℝ) + 1 / 2) * lam) :=
+  ⟨fun v => SmpS.snapRound_eq v lam hl, fun k => SmpS.snapRound_preimage lam hl k⟩
+
+/-- non-vacuity / tie rule: on the grid `2·ℤ` the midpoint 1 goes up to 2, and 0.9 goes down to 0 -/
+example : snapRound (1 : ℝ) 2 = 2 ∧ snapRound (9 / 10 : ℝ) 2 = 0 := by
+  constructor
+  · rw [SmpS.snapRound_eq _ _ (by norm_num)]
+    have : ⌊(1 : ℝ) / 2 + 1 / 2⌋ = 1 := by norm_num
+    rw [this]; norm_num
+  · rw [SmpS.snapRound_eq _ _ (by norm_num)]
+    have : ⌊(9 / 10 : ℝ) / 2 + 1 / 2⌋ = 0 := by
+      rw [Int.floor_eq_iff]; constructor <;> norm_num
+    rw [this]; norm_num
+
+/-- **the law of Snapping's released value**: the push-forward of `bit ⊗ U` under the model's function of the draws
+(`snapping_after_noise`) is the push-forward of the Laplace law centred at the clamped, rescaled input with the coded scale
+`1/ε_eff` under the model's post-processing `snapPost` (round to the grid `Λ`, clamp, undo the scaling, clamp) -/
+theorem snapping_release_law (eps sens lo hi x : ℝ) (hscale : 0 < 1 / snapEffEps eps (snapBound sens lo hi)) :
+    (SmpS.bitLaw.prod unif01).map (fun p : ℕ × ℝ =>
+        snapPost eps sens lo hi
+          (truncate (-snapBound sens lo hi) (snapBound sens lo hi) (x / sens - snapBound sens lo hi - lo / sens)
+            + 1 / snapEffEps eps (snapBound sens lo hi) * snapLaplace p.1 p.2))
+      = (Cont.lapMeasure (1 / snapEffEps eps (snapBound sens lo hi))
+          (truncate (-snapBound sens lo hi) (snapBound sens lo hi)
+            (x / sens - snapBound sens lo hi - lo / sens))).map (snapPost eps sens lo hi) :=
+  SmpS.snapping_release_map _ (SmpS.measurable_snapPost eps sens lo hi) _ _ hscale
+
+/-- non-vacuity of the hypothesis of `snapping_release_law`: ε = 1, sensitivity 1, bounds [0, 1] -/
+example : (0 : ℝ) < 1 / snapEffEps 1 (snapBound 1 0 1) := by
+  have hfe : Smp.feq (1 : ℝ) 0 = false := by simp [Smp.feq]
+  simp only [snapEffEps, snapBound, hfe, epsneg, bits_ldexp]
+  norm_num
+
+/-- **the released grid point**: the rounding step returns `Λ·k` with the Laplace probability of the cell
+`[(k−½)Λ, (k+½)Λ)`, and so does the clamped rounded value at every grid point strictly inside the clamping interval (the
+two end points collect the tails) -/
+theorem snapping_grid_pmf (lam c s : ℝ) (hl : 0 < lam) (k : ℤ) :
+    (Cont.lapMeasure s c).map (fun v => snapRound v lam) {lam * (k : ℝ)}
+        = Cont.lapMeasure s c (Ico (((k : ℝ) - 1 / 2) * lam) (((k : ℝ) + 1 / 2) * lam)) ∧
+    ∀ B : ℝ, -B < lam * (k : ℝ) → lam * (k : ℝ) < B →
+      (Cont.lapMeasure s c).map (fun v => truncate (-B) B (snapRound v lam)) {lam * (k : ℝ)}
+        = Cont.lapMeasure s c (Ico (((k : ℝ) - 1 / 2) * lam) (((k : ℝ) + 1 / 2) * lam)) :=
+  ⟨SmpS.snapRound_pmf lam c s hl k, fun B h1 h2 => SmpS.snapRound_clamped_pmf lam c s B hl k h1 h2⟩
 
 end DPL.C03
